@@ -18,8 +18,8 @@ LEVEL_TEXT = ('Partial. Coq theorems: (a) adjoint identity over an abstract real
               'solve the adjoint system by CG at infinite radius from zero with the Hessian at the forward solution, take component 0, '
               'return a zero cotangent for the initial guess and vec_jacobian_p<k> in slot k in {0,1,2,4} guarded by p[k] != None, None in '
               'slot 3/5; (c) slot laws of param_index_update (regenerated table); (d) the two function-space constructors are the same '
-              'term after mesh.coords := coords. Not proved: JAX vjp/jvp closures are transposes (checked against dense jacfwd on the '
-              'implementation); the re-made mesh drops block_maps (open finding F3b).')
+              'term after mesh.coords := coords and the re-made mesh carries every Mesh field verbatim. Not proved: JAX vjp/jvp closures are '
+              'transposes (checked against dense jacfwd on the implementation).')
 TECHNIQUE = 'Coq proof (abstract algebra over Reals; computation over regenerated reference tables) + implementation-side conclusion checks against dense linear algebra'
 GEN = ['Refs_NonlinearSolve', 'CFG_drivers']
 TARGETS = ['proofs/L_C07.vo', 'proofs/L_C19.vo', 'model/M_C07_Refs.vo']
@@ -296,7 +296,8 @@ def specs_all(ctx):
     for k in range(ctx.n(4, 16)):
         out.append(dict(kind='afs', Nx=r.choice([2, 3, 4]), Ny=r.choice([2, 3]), qdeg=r.choice([1, 2, 3]), order=r.choice([1, 2]),
                         mode=['cartesian', 'axisymmetric'][k % 2], block_maps=False, seed=r.randrange(1 << 30)))
-    out.append(dict(kind='afs', Nx=2, Ny=2, qdeg=2, order=1, mode='cartesian', block_maps=True, seed=r.randrange(1 << 30)))
+    for mode in ('cartesian', 'axisymmetric'):      # meshes that carry block_maps (as every Exodus mesh does)
+        out.append(dict(kind='afs', Nx=2, Ny=2, qdeg=2, order=1, mode=mode, block_maps=True, seed=r.randrange(1 << 30)))
     return out
 
 
@@ -351,16 +352,11 @@ def search(ctx, reasons):
 def finding_fails(ctx, f):
     w = f['witness']
     bad, info = run_spec(w['spec'])
-    if f['id'] == 'F3b':
-        return bool(bad) and bool(info.get('only_block_maps'))
     return bool(bad)
 
 
 def matches_finding(fl, f):
-    case = fl.get('case') or {}
-    if f['id'] == 'F3b':
-        return case.get('kind') == 'afs' and bool(case.get('block_maps')) and bool(case.get('only_block_maps'))
-    return False
+    return False        # both recorded findings are fixed: any recurrence is a violation
 
 
 def replay(ctx, path):
